@@ -224,6 +224,17 @@ def metadata_xml(spec):
                 if strip == "all" or kd.get("use") == strip:
                     kd.attrib.pop("use", None)
             xml = ET.tostring(root, encoding="unicode")
+        methods = spec.get("md_enc_methods")
+        if methods:
+            # the entity's metadata as other products publish it: the encryption KeyDescriptors name the
+            # algorithms the owner prefers (md:EncryptionMethod) - informative, the key is an encryption key all the same
+            import xml.etree.ElementTree as ET
+            root = ET.fromstring(xml.encode("utf-8"))
+            for kd in root.iter("{urn:oasis:names:tc:SAML:2.0:metadata}KeyDescriptor"):
+                if kd.get("use") in (None, "encryption"):
+                    for alg in methods:
+                        ET.SubElement(kd, "{urn:oasis:names:tc:SAML:2.0:metadata}EncryptionMethod", {"Algorithm": alg})
+            xml = ET.tostring(root, encoding="unicode")
         _MD_CACHE[key] = xml
     return _MD_CACHE[key]
 
@@ -312,12 +323,52 @@ def _refresh_in_place(node, obj, peer_specs):
     node.peer_view = new_view
 
 
+def use_boolean_backend(sec):
+    """A custom crypto back end as the documented CryptoBackend interface describes it: validate_signature()
+    answers 'True if the signature was correct otherwise False' (the shipped pyXMLSecurity back end does; the
+    xmlsec1 one raises instead).  Everything else is the node's real back end."""
+    from saml2_tophat.sigver import CryptoBackend, XmlsecError, SignatureError
+
+    class BooleanBackend(CryptoBackend):
+        def __init__(self, inner):
+            CryptoBackend.__init__(self)
+            self._inner = inner
+
+        def __getattr__(self, name):
+            return getattr(self._inner, name)
+
+        def version(self):
+            return self._inner.version()
+
+        def encrypt(self, *a, **kw):
+            return self._inner.encrypt(*a, **kw)
+
+        def encrypt_assertion(self, *a, **kw):
+            return self._inner.encrypt_assertion(*a, **kw)
+
+        def decrypt(self, *a, **kw):
+            return self._inner.decrypt(*a, **kw)
+
+        def sign_statement(self, *a, **kw):
+            return self._inner.sign_statement(*a, **kw)
+
+        def validate_signature(self, *a, **kw):
+            try:
+                return bool(self._inner.validate_signature(*a, **kw))
+            except (XmlsecError, SignatureError):
+                return False
+    if not isinstance(sec.crypto, BooleanBackend):
+        sec.crypto = BooleanBackend(sec.crypto)
+
+
 class IdPNode(Node):
     def build(self):
         with self.world.on(self.name):
             cnf = file_config(self.world, self.spec, list(self.peer_view.values()))
             self.server = Server(config=IdPConfig().load(copy.deepcopy(cnf)))
             self.server.config.context = "idp"
+            if self.spec.get("bool_backend"):
+                use_boolean_backend(self.server.sec)
         self.endpoints = idp_endpoints(self.name)
 
     def close(self):
@@ -345,6 +396,8 @@ class SPNode(Node):
                 conf = SPConfig().load(copy.deepcopy(cnf))
                 conf.context = "sp"
             self.client = Saml2Client(config=conf)
+            if self.spec.get("bool_backend"):
+                use_boolean_backend(self.client.sec)
         self.endpoints = sp_endpoints(self.spec)
         if not hasattr(self, "outstanding"):
             self.outstanding = {}
